@@ -2,6 +2,7 @@ package capture
 
 import (
 	"context"
+	"time"
 
 	"github.com/els0r/goProbe/v4/cmd/goProbe/config"
 	"github.com/els0r/goProbe/v4/pkg/capture/capturetypes"
@@ -154,4 +155,45 @@ func VerifC27_Lists() {
 	v.Assert(verifC27Has(verifC27Enable, "e") == 1, "the added interface is in the enable work list")
 	v.Assert(len(verifC27Enable) == nChanged+1, "the enable work list holds nothing else")
 	v.Assert(len(verifC27Disable) == nChanged+1, "the disable work list holds nothing else")
+}
+
+var (
+	verifC27WOCount int
+	verifC27WOAfter bool
+	verifC27WONames []string
+	verifC27Before  time.Time
+)
+
+// recorder standing in for Manager.performWriteout
+func verifC27Writeout(ts time.Time, ifaces []string) {
+	verifC27WOCount++
+	verifC27WOAfter = ts.Unix() > verifC27Before.Unix() // block timestamps are whole seconds
+	verifC27WONames = append([]string(nil), ifaces...)
+}
+
+// VerifC27_FinalWriteout: before update() stops the interfaces on its disable list it requests one final
+// write-out for exactly those interfaces, stamped with a later second than the current instant - so that it cannot
+// collide with (and be refused as a duplicate of) a regular write-out that already happened in this second.
+func VerifC27_FinalWriteout() {
+	cm := &Manager{captures: newCaptures(), lastAppliedConfig: config.Ifaces{}}
+	disable := capturetypes.IfaceChanges{{Name: "a"}, {Name: "b"}}
+	if v.Bool() {
+		disable = disable[:1]
+	}
+	verifC27WOCount, verifC27WOAfter, verifC27WONames = 0, false, nil
+	verifC27Before = time.Now()
+	cm.update(context.Background(), config.Ifaces{}, nil, disable)
+	v.Reach("updated")
+	v.Assert(verifC27WOCount == 1, "one final write-out is requested for the interfaces about to stop")
+	v.Assert(len(verifC27WONames) == len(disable), "the final write-out covers exactly the interfaces about to stop")
+	for i := range disable {
+		if i < len(verifC27WONames) {
+			v.Assert(verifC27WONames[i] == disable[i].Name, "the final write-out covers exactly the interfaces about to stop")
+		}
+	}
+	v.Assert(verifC27WOAfter, "the final write-out is stamped with a later second than the current instant")
+	// nothing to stop: no write-out
+	verifC27WOCount = 0
+	cm.update(context.Background(), config.Ifaces{}, nil, nil)
+	v.Assert(verifC27WOCount == 0, "no write-out is requested when no interface stops")
 }
